@@ -171,3 +171,60 @@ def is_err_nosolution(node):
     if isinstance(n, dict) and n.get("k") == "adt" and n["v"] == "Err":
         return True
     return False
+
+
+# ---- string literals / format templates --------------------------------------------------------------
+
+def _decode_template(bs):
+    """rustc's compact format_args! template: <len><bytes> literal pieces, 0xC0.. argument markers, 0 ends."""
+    out = []
+    i = 0
+    while i < len(bs):
+        b = bs[i]
+        if b == 0:
+            break
+        if b < 0x80:
+            out.append(bytes(bs[i + 1:i + 1 + b]).decode("utf8", "replace"))
+            i += 1 + b
+        elif b == 0x80:
+            # long literal: two-byte length
+            ln = bs[i + 1] | (bs[i + 2] << 8)
+            out.append(bytes(bs[i + 3:i + 3 + ln]).decode("utf8", "replace"))
+            i += 3 + ln
+        else:
+            out.append("{}")
+            # 0xC0 | flags: following option bytes (flags, width, precision, index) per set bit
+            extra = 0
+            if b & 0x01:
+                extra += 4
+            if b & 0x02:
+                extra += 2
+            if b & 0x04:
+                extra += 2
+            if b & 0x08:
+                extra += 2
+            i += 1 + extra
+    return "".join(out)
+
+
+def string_literals(node, skip_tracing=True):
+    """All string literals and decoded format templates under a THIR node."""
+    import ast as _ast
+    out = []
+    for n in walk(node, skip_tracing):
+        if n.get("k") != "lit":
+            continue
+        v = n["v"]
+        if v.startswith("Str("):
+            m = re.match(r'^Str\((".*"), \w+\)$', v, re.S)
+            if m:
+                try:
+                    out.append(_ast.literal_eval(m.group(1)))
+                except Exception:
+                    out.append(m.group(1).strip('"'))
+        elif v.startswith("ByteStr(["):
+            m = re.match(r"^ByteStr\(\[([0-9, ]*)\]", v)
+            if m:
+                bs = [int(x) for x in m.group(1).split(",") if x.strip()]
+                out.append(_decode_template(bs))
+    return out
